@@ -235,8 +235,18 @@ def compare_case(rust_obs, model_obs, keys):
         if o is None:
             return "op %d: model printed no observation" % k
         for key in keys:
+            proj = None
+            if key.endswith(":frame"):
+                key = key[: -len(":frame")]
+                proj = canon.skeleton
+            elif key.endswith(":outcome"):
+                key = key[: -len(":outcome")]
+                proj = canon.outcomes
             mv = canon.get(o, key)
             rv = canon.get(r, key)
+            if proj is not None:
+                mv = proj(mv)
+                rv = proj(rv)
             if mv is None and rv is None:
                 continue
             if mv is None or rv is None:
